@@ -25,6 +25,10 @@ KIND = {
 }
 
 
+EXTRA_ELEMENTS = [('ErrorComment', 0x0902, 'AE'), ('OffendingElement', 0x0901, 'AT'), ('ErrorID', 0x0903, 'US'),
+                  ('AffectedSOPClassUID', 0x0002, 'UI'), ('AffectedSOPInstanceUID', 0x1000, 'UI')]   # LO pads like AE: with a space
+
+
 def field_info(cls):
     from pydicom.datadict import dictionary_VR, tag_for_keyword
     out = []
@@ -63,6 +67,10 @@ def scenario(cls, rng, n_ops, uid_len=None):
         r = rng.random()
         if r < 0.5 and info:
             kw, e, vr = rng.choice(info)
+            if rng.random() < 0.15:
+                # a PS3.7 element the message class has no field for, set through command_set (Error Comment,
+                # Offending Element, Error ID, ...): the model's `put` inserts it at its place
+                kw, e, vr = rng.choice([x for x in EXTRA_ELEMENTS if x[0] not in cls.command_fields])
             val, term = gen_value(vr, rng, uid_len)
             setattr(msg.command_set, kw, val)
             ops_terms.append('(SetField %d %s)' % (e, term))
